@@ -147,9 +147,11 @@ def feasCandidates (base max n w : Int) : List Int :=
   let m := if base = 0 then 0 else max / base
   [0, 1, top, q, q + 1, m, m + 1]
 
-/-- is `w = nextWait(base, max, jitter, n, s)` for some draw `0 ≤ s < 2^n`? -/
+/-- is `w = nextWait(base, max, jitter, n, s)` for some draw `0 ≤ s < 2^n`? (for `n ≤ 0` and `n ≥ 63` the draw is
+not used, and `2^n` is never computed) -/
 def feasible (base max n w : Int) : Bool :=
-  (feasCandidates base max n w).any fun s =>
+  if n ≤ 0 ∨ n ≥ 63 then Gen.retry_nextWait base max 0 true n 0 == w
+  else (feasCandidates base max n w).any fun s =>
     decide (0 ≤ s) && decide (s < (2 : Int) ^ n.toNat) && (Gen.retry_nextWait base max 0 true n s == w)
 
 end LLRP.Retry
